@@ -91,6 +91,9 @@ def scn_get_mask(T, case):
     pm = types.SimpleNamespace(get_plugin=lambda kind, method: _SamplerPlugin(log))
     cls(cfg, None, None, pm)
     rng = log[0][2] if log else None
+    # one sampler per configured sampler, in configuration order - also one whose selection is empty (the perturbation code looks a
+    # sampler up by its configured index)
+    T.prove(PFX + ".init_samplers.every_configured_sampler_is_created_in_configuration_order", [idx for idx, _, _ in log] == [0, 1], repr([idx for idx, _, _ in log]))
     for idx, m, r in log:
         T.prove(PFX + ".init_samplers.sampler_mask_inside_variable_mask", m is None and mask is None or (m is not None and all((mask is None or mask[i]) for i in range(N) if m[i])))
         T.prove(PFX + ".init_samplers.same_generator_for_every_sampler", r is rng and r is not None)
@@ -257,6 +260,9 @@ def cases_requests(tier):
             # the fixed variables moved between the function request and the gradient request (a nested optimization does that):
             # every row of the gradient request carries the fixed values of THAT request
             yield "N%d/mask=%s/boundary=%d/gradients-after-functions-at-other-fixed-values" % (N, m, bt), {"N": N, "mask": m, "bt": bt, "both": False, "moved": True}
+            for both in (True, False):
+                yield "N%d/mask=%s/boundary=%d/%s/every-perturbed-evaluation-fails" % (N, m, bt, "functions+gradients" if both else "gradients-after-functions"), {
+                    "N": N, "mask": m, "bt": bt, "both": both, "all_fail": True}
             # ... and the same evaluator has already computed a gradient at other fixed values (an earlier outer iteration of a nested
             # optimization): the rows of THIS request carry the fixed values of this request
             for both in (True, False):
@@ -277,9 +283,13 @@ def scn_requests(T, case):
             samples[:, :, i] = S[:, :, i]
     cfgw = T.const(np.array([0.5, 0.5]))
     cfg = H.make_config(T, R, 1, 0, N, weights=cfgw, ow=T.const(np.array([1.0])), P=P, mask=mask, lb=lb, ub=ub, magnitudes=mag,
-                        boundary_types=[case["bt"]] * N, min_success=1, pert_min_success=1)
+                        boundary_types=[case["bt"]] * N, min_success=0 if case.get("all_fail") else 1, pert_min_success=1)
     vals = T.real("values", (R * (P + 1),))
-    sev = H.ScriptedEvaluator(T, ch, lambda v, r, p, k: T.np.array([vals[k % (R * (P + 1))]]))
+    if case.get("all_fail"):
+        # every perturbed evaluation fails, with realization_min_success = 0: a gradient is still reported (NaN where it is undefined)
+        sev = H.ScriptedEvaluator(T, ch, lambda v, r, p, k: T.np.array([np.nan]) if (p is not None and p >= 0) else T.np.array([vals[k % (R * (P + 1))]]))
+    else:
+        sev = H.ScriptedEvaluator(T, ch, lambda v, r, p, k: T.np.array([vals[k % (R * (P + 1))]]))
     ev = H.make_evaluator(T, ch, cfg, sev, samplers=[H.FakeSampler(samples)])
     if case.get("earlier"):
         other0 = T.real("fixed_values_of_the_earlier_request", (N,), ge=lb, le=ub)
